@@ -475,7 +475,8 @@ SPECS["C17"] = {
                    "complete line and every line is emitted exactly once. BATCHES: influxdb (1..metrics-per-batch series per callback, counts add up, one line per series, ceil(k/batch) "
                    "callbacks), datadog (every sub-metric of every series exactly once, host and tags carried), newrelic (every series once), otlp groups (no batch above the batch size, "
                    "every metric in exactly one batch). INFLUX ESCAPING: for every ASCII string of 1..3 bytes the escaped tag / measurement name / string field contains no bare separator "
-                   "and unescapes (reference un-escaper in the harness) to the input.",
+                   "and unescapes (reference un-escaper in the harness) to the input. NEW RELIC RETRIES: with an API key (gzip, the real compress/gzip is interpreted) and up to three "
+                   "attempts that fail or not, every attempt of a batch carries the same payload.",
     "bounds": {"quick": "event title/text <= 2 bytes; names 2 bytes, tags 1 byte; packet size 8..40; 0..5 series and batch sizes 1..4 (influx), 1..60 (datadog, newrelic), 1..3 (otlp); escaping strings <= 2 bytes",
                "thorough": "escaping strings of 3 bytes, event title/text of 2 bytes with newline"},
     "outside": ["number formatting (fmt %f, strconv.FormatFloat): the 6-decimal relay round trip of arbitrary values is checked for the concrete values 1.5, 0.25, 3, 42 only",
@@ -501,6 +502,8 @@ SPECS["C17"] = {
          "entries": {"quick": ["VerifC17_NewRelicBatches"]}, "reach": {"*": ["batched"]}, "limits": {"quick": {"timeout": "600s"}}},
         {"pkg": "./pkg/backends/otlp", "harness": "pkg/backends/otlp", "mode": "machine", "workers": 8,
          "entries": {"quick": ["VerifC17_OTLPGroups"]}, "reach": {"*": ["grouped"]}, "limits": {"quick": {"timeout": "600s"}}},
+        {"pkg": "./pkg/backends/newrelic", "harness": "pkg/backends/newrelic", "mode": "machine", "workers": 8,
+         "entries": {"quick": ["VerifC17_NewRelicRetryBody"]}, "reach": {"*": ["retried"]}, "limits": {"quick": {"timeout": "600s"}}},
     ],
 }
 
@@ -516,11 +519,16 @@ SPECS["C16"] = {
                    "when the transport never failed and the request was not cancelled. VerifC16_Rollover: 101 requests across a connection recycle (maxStreamsPerConnection) with failing "
                    "dials around it and all flush contexts done. OTLP (HTTP): the real SendMetricsAsync / postMetrics retry loop (errgroup, real back-off against the symbolic clock, "
                    "max-retries 0..2) against a symbolic per-attempt fault script {200, connection error, 503} for 1..2 batches: callback exactly once, an error whenever some batch (identified "
-                   "by its request body) never had an accepted attempt, none when every attempt succeeded. The flusher's WaitGroup accounting over callbacks is exercised by C01's flushData entries.",
-    "bounds": {"quick": "1..2 streams x 1..2 buffers, <= 3..5 connect/write operations per run (longer scripts are cut by an assumption), <= 3 rounds; rollover: 101 one-buffer streams, <= 4 dials, writes never fail; OTLP: <= 3 attempts, 1..2 batches",
+                   "by its request body) never had an accepted attempt, none when every attempt succeeded. INFLUXDB, DATADOG, NEW RELIC (HTTP): the real SendMetricsAsync (payload builder, "
+                   "one goroutine per batch, request-buffer semaphore, collector goroutine), post / postData retry loops (real exponential back-off against the symbolic clock, New Relic's "
+                   "Retry-After handling via a reflection-free errors.As) and constructPost / postWrapper (JSON encoders stubbed: a distinct handle per value) for 1..2 batches with 0..2 free "
+                   "request buffers (0 = all held by an earlier flush), the same per-attempt fault script, and shutdown just before the flush or while an attempt is in flight (symbolic): "
+                   "callback exactly once, a non-nil error when some attempted batch was never accepted, none when nothing failed, every attempt of a batch carries the same body, every "
+                   "request buffer is back in the pool (unless shut down). The flusher's WaitGroup accounting over callbacks is exercised by C01's flushData entries.",
+    "bounds": {"quick": "1..2 streams x 1..2 buffers, <= 3..5 connect/write operations per run (longer scripts are cut by an assumption), <= 3 rounds; rollover: 101 one-buffer streams, <= 4 dials, writes never fail; OTLP / influxdb / datadog / newrelic: <= 3 attempts in total, 1..2 batches, 0..2 free buffers",
                "thorough": "adds 2 streams x 2 buffers x 3 rounds with harness-owned time"},
-    "outside": ["datadog, influxdb, newrelic, cloudwatch HTTP backends: their payload marshalling goes through jsoniter / the AWS SDK (reflection), not executable by the engine; their "
-                "exactly-once argument (goroutine per batch + collector) is the same shape as OTLP's but is NOT claimed", "statsdaemon's producer that stops early on cancel", "real scheduling: "
+    "outside": ["cloudwatch: its client is the AWS SDK (reflection, request signing), not executable by the engine; NOT claimed", "compressed payloads of datadog / influxdb (the "
+                "harness runs them uncompressed; New Relic's gzip path runs for real in VerifC16_NewRelicKey / VerifC17_NewRelicRetryBody)", "the JSON text itself (stub)", "statsdaemon's producer that stops early on cancel", "real scheduling: "
                 "one goroutine runs at a time and runs until it blocks; a counterexample that needs a select to prefer a particular ready case may not reproduce natively (the driver then "
                 "tries the other candidate paths to the same assertion and reports a CHECK-PROBLEM, exit 2, if none reproduces)"],
     "assumptions": STUBS_COMMON + [NET_STUBS, TIME_MODEL, "time.NewTimer: fired at once (time model a) or pending until verifAdvanceTime (time model b; natively a 1.1 s sleep)"],
@@ -534,6 +542,16 @@ SPECS["C16"] = {
         {"pkg": "./pkg/backends/otlp", "harness": "pkg/backends/otlp", "mode": "machine",
          "entries": {"quick": ["VerifC16_OTLP"]}, "reach": {"*": ["clean", "all-failed", "partial-failure"]},
          "limits": {"quick": {"timeout": "600s"}}},
+        {"pkg": "./pkg/backends/influxdb", "harness": "pkg/backends/influxdb", "mode": "machine",
+         "entries": {"quick": ["VerifC16_Influx", "VerifC16_InfluxTwin"]}, "reach": {"VerifC16_Influx": ["clean", "all-failed", "partial-failure", "cancelled"]},
+         "twin": {"VerifC16_InfluxTwin": True}, "limits": {"quick": {"timeout": "900s"}}},
+        {"pkg": "./pkg/backends/datadog", "harness": "pkg/backends/datadog", "mode": "machine",
+         "entries": {"quick": ["VerifC16_Datadog"]}, "reach": {"*": ["clean", "all-failed", "partial-failure", "cancelled"]},
+         "limits": {"quick": {"timeout": "900s"}}},
+        {"pkg": "./pkg/backends/newrelic", "harness": "pkg/backends/newrelic", "mode": "machine",
+         "entries": {"quick": ["VerifC16_NewRelic"], "thorough": ["VerifC16_NewRelic", "VerifC16_NewRelicKey"]},
+         "reach": {"*": ["clean", "all-failed", "partial-failure", "cancelled"]},
+         "limits": {"quick": {"timeout": "900s"}, "thorough": {"timeout": "1800s"}}},
     ],
 }
 
